@@ -181,9 +181,16 @@ def run(chk: Check, tier: str, seed: int) -> None:
             x["_repeat"] = True
     traces: List[Dict[str, Any]] = []
     cap = 12000 if tier == "quick" else 60000
-    stride = max(1, len(recs) // cap)   # the histories whose hook events go to TLC: evenly spread over the enumeration
-    for ri, x in enumerate(recs):
-        x["_trace"] = ri % stride == 0     # the others do not ship their events back (memory)
+    # the histories whose hook events go to TLC: every random walk (all queries) and an even spread of the exhaustive ones
+    walks = sum(1 for x in recs if len(x["hist"]) != 4)
+    stride = max(1, (len(recs) - walks) // max(1, cap - walks))
+    nb = 0
+    for x in recs:
+        if len(x["hist"]) != 4:
+            x["_trace"] = True
+        else:
+            x["_trace"] = nb % stride == 0     # the others do not ship their events back (memory)
+            nb += 1
     for ri, (rec, res) in enumerate(zip(recs, core.pmap(replay, recs))):
         chk.traces += 2
         live = {h["it"] for h in rec["hist"] if h["act"] == "open"}
@@ -195,7 +202,7 @@ def run(chk: Check, tier: str, seed: int) -> None:
             continue
         for sig, case, what in res["viol"]:
             chk.violation(sig, case, what)
-        if res["events"] and ri % stride == 0 and len(traces) < cap + 1000:
+        if res["events"] and rec["_trace"]:
             traces.append({"id": len(traces) + 1, "events": res["events"], "_rec": rec})
     # ---- code -> specification: the hook events of every history validated by TLC (Trace_Cache.tla)
     if traces:
